@@ -265,7 +265,8 @@ class FakeSock:
         self.closed = 0
         self.delivered = 0
         # the class of the injected I/O error varies with the scenario (deterministically): any OSError is an I/O failure
-        self.errkind = (len(self.chunks) + (fail_send or 0)) % 5
+        self.errkind = (len(self.chunks) + (fail_send or 0)) % 6
+        self.wire = []          # every byte that reached the wire, in order: complete sendall payloads and the fragment a failing sendall got out
 
     def io_error(self, reading):
         import ssl
@@ -278,6 +279,8 @@ class FakeSock:
             return OSError(105, 'No buffer space available')
         if k == 3:
             return ssl.SSLError(1, '[SSL] record layer failure')
+        if k == 5:
+            return InterruptedError(4, 'Interrupted system call')
         return OSError('injected I/O failure')
 
     def recv(self, n):
@@ -304,8 +307,11 @@ class FakeSock:
             raise OSError(9, 'Bad file descriptor')
         if self.fail_send is not None and self.sends >= self.fail_send:
             _ev(self.S, 'send-error', bytes(data))
+            # a failing sendall may already have written part of the data (here: the first half)
+            self.wire.append(bytes(data)[:len(data) // 2])
             raise self.io_error(False)
         self.sent.append(bytes(data))
+        self.wire.append(bytes(data))
         _ev(self.S, 'send', bytes(data))
 
     def send(self, data):
@@ -321,6 +327,7 @@ class FakeSock:
             raise self.io_error(False)
         part = bytes(data)[:16384]
         self.sent.append(part)
+        self.wire.append(part)
         _ev(self.S, 'send', part)
         return len(part)
 
